@@ -299,6 +299,12 @@ static std::string run_case(Session& S, const std::string& line) {
   }
   for (auto& pk : peers)
     if (pk.second.w) pk.second.w->close_all();
+  std::string fetched;
+  bool was_done = dl.file_list()->is_done() && dl.file_list()->size_files() == 1;
+  if (was_done) {
+    std::ifstream f((*dl.file_list()->begin())->frozen_path().str(), std::ios::binary);
+    fetched.assign((std::istreambuf_iterator<char>(f)), std::istreambuf_iterator<char>());
+  }
   try {
     S.step();
     dl.stop(torrent::Download::stop_skip_tracker);
@@ -308,6 +314,27 @@ static std::string run_case(Session& S, const std::string& line) {
     S.step();
   } catch (torrent::base_error& e) {
     out += std::string(" ; ERR:cleanup ") + e.what();
+  }
+  if (was_done) {
+    // "then describes the same torrent as the original file": what the client does next is to load
+    // the fetched metadata as a torrent; compare the resulting Download with the one the original gives.
+    auto dump_of = [&](const std::string& info_bytes) -> std::string {
+      try {
+        torrent::Download d = S.add_raw("d4:info" + info_bytes + "e");
+        std::string o = "name=" + hex(d.info()->name().str()) + " size=" + std::to_string(d.file_list()->size_bytes()) +
+                        " chunk=" + std::to_string(d.file_list()->chunk_size()) + " chunks=" + std::to_string(d.file_list()->size_chunks()) +
+                        " priv=" + (d.info()->is_private() ? "1" : "0") + " hash=" + hex(d.info()->hash().str()) +
+                        " pieces=" + md5hex(d.ptr()->complete_hash()) + " files=";
+        for (auto& fe : *d.file_list()) o += hex(fe->path()->as_string()) + ":" + std::to_string(fe->size_bytes()) + ",";
+        torrent::download_remove(d);
+        S.step();
+        return o;
+      } catch (torrent::base_error& e) {
+        return std::string("ERR ") + e.what();
+      }
+    };
+    std::string a = dump_of(fetched), b = dump_of(info);
+    out += std::string(" ; same=") + (a == b && a.compare(0, 3, "ERR") != 0 ? "1" : "0:" + a + " / " + b);
   }
   std::error_code ec;
   fs::remove_all(root, ec);
